@@ -486,7 +486,7 @@ func (g *ginst) stateKey() string {
 
 type gop struct {
 	g    int  // which generator
-	kind byte // 'n' next(g), 's' g.send(7), 'z' g.send(None)
+	kind byte // 'n' next(g), 's' g.send(7), 'z' g.send(None), 'r' retire g: a fresh generator of the same function takes its place, then next() on the retired one
 }
 
 func (o gop) sent() string {
@@ -515,6 +515,14 @@ func gSimulate(shapes [][]*gitem, h []gop) (ev []string, key string) {
 		insts[i] = &ginst{body: s, state: 'U'}
 	}
 	for _, o := range h {
+		if o.kind == 'r' {
+			// a generator's state is its own: making another one of the same function changes
+			// nothing for it, in particular an exhausted one stays exhausted
+			old := insts[o.g]
+			insts[o.g] = &ginst{body: shapes[o.g], state: 'U'}
+			ev = append(ev, old.op("None")...)
+			continue
+		}
 		ev = append(ev, insts[o.g].op(o.sent())...)
 	}
 	for _, in := range insts {
@@ -731,6 +739,7 @@ func c05Plans(quick bool) []gplan {
 	if quick {
 		plans = []gplan{
 			{"a1", single(4), []byte{'n', 's', 'z'}, 6},
+			{"a1r", single(3), []byte{'n', 's', 'r'}, 5},
 			{"a2", pairs(2, 2, 3), []byte{'n', 's'}, 6},
 			{"a3", singleI(3), []byte{'n', 's', 'z'}, 6},
 			{"a4", singleT(3), []byte{'n', 's'}, 5},
@@ -738,6 +747,8 @@ func c05Plans(quick bool) []gplan {
 	} else {
 		plans = []gplan{
 			{"a1", single(5), []byte{'n', 's', 'z'}, 8},
+			{"a1r", single(4), []byte{'n', 's', 'r'}, 7},
+			{"a2r", pairs(2, 2, 3), []byte{'n', 'r'}, 6},
 			{"a2", pairs(3, 2, 4), []byte{'n', 's'}, 8},
 			{"a3", singleI(4), []byte{'n', 's', 'z'}, 8},
 			{"a4", singleT(4), []byte{'n', 's'}, 6},
@@ -787,6 +798,8 @@ func (gc *gcase) program() string {
 			fmt.Fprintf(&pb, "op(%c, 1, 7)\n", 'a'+x.g)
 		case 'z':
 			fmt.Fprintf(&pb, "op(%c, 1, None)\n", 'a'+x.g)
+		case 'r':
+			fmt.Fprintf(&pb, "t = %c\n%c = %s()\nop(t, 0, None)\n", 'a'+x.g, 'a'+x.g, gc.fn[x.g])
 		}
 	}
 	return pb.String()
@@ -921,6 +934,14 @@ func c05Explore(c *c05, pl gplan, tup gtuple) {
 					res, err = py.Send(gens[x.g], py.Int(7))
 				case 'z':
 					res, err = py.Send(gens[x.g], py.None)
+				case 'r':
+					old := gens[x.g]
+					gobj, cerr := py.Call(c.shapeG[fn[x.g]], nil, nil)
+					if cerr != nil {
+						panic(cerr)
+					}
+					gens[x.g] = gobj
+					res, err = py.Next(old)
 				}
 				c.lg.Entries = append(c.lg.Entries, c05Marker(res, err))
 			}
